@@ -5,7 +5,7 @@
    res_ok v c s: client result c equals the sparse file's result s (count/offset, cursor, error class, bytes);
    for v = as_found the error class of a read in the F16 input class (s_full_tail) is nil instead of EOF. *)
 From Coq Require Import List NArith ZArith Bool.
-From BLB Require Import Gen.Consts C15.Core C15.Model C15.ProofsBytes C15.ProofsClient C15.ProofsStep C15.ProofsRA C15.ProofsCanon.
+From BLB Require Import Gen.Consts C15.Core C15.Model C15.ProofsBytes C15.ProofsClient C15.ProofsStep C15.ProofsRA C15.ProofsCanon C15.ProofsFault.
 Import ListNotations.
 Open Scope N_scope.
 
@@ -139,6 +139,31 @@ Theorem canonical_rle_determined :
   forall a b, rlen a = rlen b -> (forall i, rget a i = rget b i) -> canon a = canon b /\ enc_runs a = enc_runs b.
 Proof. intros a b Hl Hg. split; [apply canon_ext | apply enc_runs_ext]; auto. Qed.
 Print Assumptions canonical_rle_determined.
+
+(* [FULL] readAt's scan over the per-tract results, the first real error wins. For every list of results in which
+   a result with an error other than end-of-file is preceded only by successful or short reads, whatever follows it,
+   the scan returns that error and counts exactly the results before it, a short one in full since it is not the
+   last. This is the loop a refactoring into a switch broke *)
+Theorem read_scan_first_error_wins :
+  forall padAll pre w r e rest acc,
+    Forall benign pre -> e <> E_OK -> e <> E_EOF ->
+    fold_results padAll (pre ++ (w, r, e) :: rest) acc E_OK =
+    (fold_right (fun h a => counted h + a) 0 pre + acc, e).
+Proof. exact fold_first_error_wins_lemma. Qed.
+Print Assumptions read_scan_first_error_wins.
+
+(* [FULL] a tract that no replica could deliver is never masked. For every variant, tract length, state related to a
+   sparse file f, every set of armed tractserver read faults, persistent or first-attempt-only, including the retry
+   through cache invalidation, a ReadAt of k > 0 bytes returns either the injected error with a count of at most the
+   bytes the file holds in the range, those bytes being the file's, no claim beyond them, or exactly the fault-free
+   answer, the file's count and bytes with end-of-file precisely when the range runs past the true end. It never
+   reports end-of-file or success for a range it could not read. The state stays related to f and the cursor put *)
+Theorem read_fault_never_masked :
+  forall v tl fl st f off k r st', 0 < tl -> R tl st f -> (0 <= off)%Z -> 0 < k ->
+    read_at_f v tl fl st off k = (r, st') ->
+    fault_ok v tl f (Z.to_N off) k r /\ R tl st' f /\ pos st' = pos st.
+Proof. exact read_at_f_fault_ok. Qed.
+Print Assumptions read_fault_never_masked.
 
 (* non-vacuity: a concrete run exercising holes over part of a tract, a whole tract and several tracts *)
 Example sparse_example :
